@@ -5,7 +5,7 @@ META = dict(
     text="Every bit-field format (composition of the total width into positive field widths) of total width <= 10 (12 in thorough) with every "
          "in-range value tuple, plus a masked out-of-range variant, is packed with packify / packifyInto (offsets 0-2 into a 0xAA buffer, "
          "short and long buffers, explicit larger size) and unpacked with unpackify (boolean on/off, padding bits set and clear, both byte "
-         "orders) and compared with a reference that works on '0'/'1' strings; wider formats up to 16 bits get a boundary-value family. "
+         "orders) and compared with a reference that works on '0'/'1' strings; wider formats up to 12 (16 in thorough) bits get a boundary-value family. "
          "bytify/unbytify, hexify/unhexify, hexize/unhexize, binize/unbinize and signExtend are enumerated completely over small domains "
          "against int.to_bytes / bytes.hex / format().",
     note="Complete only up to the stated widths (full value product for 16-bit formats is ~3e9 cases); the 'formal proof' in the quantifier is another "
@@ -16,8 +16,9 @@ import itertools
 from mc import core
 
 FULL_W = 10 if core.TIER == "quick" else 12     # every value tuple
-EDGE_W = 16                                      # boundary-value family only
+EDGE_W = 12 if core.TIER == "quick" else 16     # boundary-value family only
 KEY_W = 10                                       # per-case distinct keys up to this width (memory bound)
+HANG_S = 120                                     # per format / per scalar job; normal cost is well under 10 s
 
 
 # ----------------------------------------------------------------------------- reference (string based)
@@ -75,7 +76,11 @@ def fmtstr(widths):
     return u" ".join(str(w) for w in widths)
 
 
+LAST = [None]
+
+
 def call(fn, *a, **k):
+    LAST[0] = (fn.__name__, a, k)
     try:
         return True, fn(*a, **k)
     except Exception as ex:      # the property says the codecs work on their domain: any raise is a finding
@@ -113,7 +118,7 @@ def value_tuples(widths, full):
     return out
 
 
-def check_format(by, p, widths, full):
+def check_format(by, p, widths, full, cur):
     fmt = fmtstr(widths)
     W = sum(widths)
     size = minsize(widths)
@@ -134,6 +139,7 @@ def check_format(by, p, widths, full):
 
     for vals in value_tuples(widths, full):
         p.evaluations += 1
+        cur[0] = list(vals)
         if per_case_key and W:
             p.nontrivial((widths, vals))
         exp = ref_pack(widths, vals)
@@ -239,7 +245,14 @@ def work_formats(chunk):
     from ioflo.aid import byting as by
     p = core.Part()
     for widths, full in chunk:
-        check_format(by, p, widths, full)
+        cur = [None]
+        try:
+            with core.watchdog(HANG_S):
+                check_format(by, p, widths, full, cur)
+        except core.Watchdog:
+            p.violation("pack-unpack|hangs", "fmt=%r fields=%r" % (str(fmtstr(widths)), cur[0]),
+                        "a packify/unpackify/packifyInto call did not return within %ds of starting this format" % HANG_S,
+                        dict(fmt=fmtstr(widths), fields=cur[0]))
     return p
 
 
@@ -249,6 +262,17 @@ def work_scalars(job):
     core.use_repo()
     from ioflo.aid import byting as by
     p = core.Part()
+    try:
+        with core.watchdog(HANG_S):
+            scalars(by, p, job)
+    except core.Watchdog:
+        last = "%s%r %r" % LAST[0] if LAST[0] else None
+        p.violation("%s|hangs" % job[0], "after %s" % (last,), "a %s-family call did not return within %ds (job %r, last call started: %s)"
+                    % (job[0], HANG_S, job, last), dict(job=list(job), last_call=last))
+    return p
+
+
+def scalars(by, p, job):
     kind, lo, hi = job
 
     def bad(group, example, what, **kw):
